@@ -256,6 +256,64 @@ class NodeDiff(Contract):
     }
 
 
+class NodeDiffSmartNIC(Contract):
+    """node with one SmartNIC (present on both sides) whose internal service has the port p1: whatever changes below the
+    card -- the port's own labels / capacities / user data, the ports that exist -- makes the node diff report the card
+    (flag SUB_INTERFACES), and nothing else does"""
+    target = 'fim.slivers.network_node:NodeSliver.diff'
+    extra_targets = ('fim.slivers.network_service:NetworkServiceSliver.diff', TB + 'prop_diff')
+    props = ('C17',)
+    max_paths = 60000
+    cost = 30
+
+    def inputs(self, g):
+        slivers = []
+        for side in ('old', 'new'):
+            ifs = gen_children(g, InterfaceSliver, side, ['p1', 'p2'], InterfaceInfo, 'interfaces', with_props_on=('p1',),
+                               resource_type=InterfaceType.DedicatedPort)
+            if ifs is None:
+                ifs = PObj(InterfaceInfo, {'interfaces': PDict()})
+            ns = mk_sliver(g, NetworkServiceSliver, f'{side}/nic-ns', props=False, resource_name='nic-ns', interface_info=ifs)
+            nsi = blank(NetworkServiceInfo)
+            nsi['network_services'] = PDict({'nic-ns': ns})
+            card = mk_sliver(g, ComponentSliver, f'{side}/nic', props=False, resource_name='nic', resource_type=ComponentType.SmartNIC,
+                             network_service_info=PObj(NetworkServiceInfo, nsi))
+            ci = blank(AttachedComponentsInfo)
+            ci['devices'] = PDict({'nic': card})
+            ci['by_type'] = PDict()
+            slivers.append(mk_sliver(g, NodeSliver, side, props=False, resource_name='n',
+                                     attached_components_info=PObj(AttachedComponentsInfo, ci)))
+        return slivers, {}
+
+    def body(self, h, a, b):
+        return h.call(NodeSliver.diff, a, b)
+
+    @staticmethod
+    def _below(sl):
+        card = fld(fld(fld(sl, 'attached_components_info'), 'devices'), 'nic')
+        return fld(fld(fld(card, 'network_service_info'), 'network_services'), 'nic-ns')
+
+    @staticmethod
+    def _c(pre, post):
+        if not returned(post):
+            return False
+        na, nb = NodeDiffSmartNIC._below(pre.args[0]), NodeDiffSmartNIC._below(pre.args[1])
+        old, new = children(na, 'interface_info', 'interfaces'), children(nb, 'interface_info', 'interfaces')
+        diffs = [set(old) != set(new)]
+        for n in set(old) & set(new):
+            diffs.append(any_prop_differs(old[n], new[n]))
+        changed = Or(*diffs)
+        if post.result is None:
+            return Not(changed)
+        mods = items(fld(fld(post.result, 'modified'), 'components'))
+        hit = [t for t in mods if fld(t[0], 'resource_name') == 'nic']
+        if not hit:
+            return Not(changed)
+        return And(len(hit) == 1, changed, flag_has(hit[0][1], WhatsModifiedFlag.SUB_INTERFACES))
+
+    ensures = {'card_reported_iff_something_below_it_differs': lambda pre, post: NodeDiffSmartNIC._c(pre, post)}
+
+
 class ServiceDiff(Contract):
     target = 'fim.slivers.network_service:NetworkServiceSliver.diff'
     extra_targets = (TB + 'prop_diff', TB + '_dict_diff', TB + '_dict_common')
@@ -384,4 +442,4 @@ class SelfCopy(Contract):
     ensures = {'identical_copy_no_difference': lambda pre, post: returned(post) and post.result is None}
 
 
-CONTRACTS = [PropDiff, NodeDiff, ServiceDiff, DedicatedPortDiff, AntiSymmetry, SelfCopy]
+CONTRACTS = [PropDiff, NodeDiff, NodeDiffSmartNIC, ServiceDiff, DedicatedPortDiff, AntiSymmetry, SelfCopy]
